@@ -28,9 +28,16 @@ g++ -std=c++17 -O1 -I$WT/src $FL demo/demo.cpp -o /tmp/seed_demo_without $LIBS 2
 ( cd demo && timeout 600 /tmp/seed_demo_without > /tmp/seed_without.out 2>&1 ); RC_WITHOUT=$?
 git -C $WT apply $D/patch.diff
 echo "demo with change: exit $RC_WITH ; without: exit $RC_WITHOUT ; suite with change: $SUITE"
-# 4. my checks against /repo with the change applied
+# 4. my checks against /repo with the change applied (SEED_SCRATCH=1: against a scratch copy of the committed /repo/src with the change
+#    applied, for when a background run is using /repo itself)
 cd /verif
-git -C /repo apply $D/patch.diff || { echo "patch does not apply to /repo"; exit 2; }
+if [ "${SEED_SCRATCH:-0}" = "1" ]; then
+  SR=/tmp/seedrepo; rm -rf $SR; mkdir -p $SR; git -C /repo archive HEAD src | tar -x -C $SR
+  ( cd $SR && patch -p1 -s < $D/patch.diff ) || { echo "patch does not apply to the scratch copy"; exit 2; }
+  export VERIF_REPO=$SR
+else
+  git -C /repo apply $D/patch.diff || { echo "patch does not apply to /repo"; exit 2; }
+fi
 RESULTS=""
 for prop in $P $EXTRA; do
   out=$(VERIF_SCRATCH=/verif/build/seedscratch ./check $prop --tier quick 2>&1); rc=$?
@@ -39,13 +46,13 @@ for prop in $P $EXTRA; do
   echo "check $prop quick: exit $rc, $v violation line(s): $first"
   RESULTS="$RESULTS{\"property\":\"$prop\",\"tier\":\"quick\",\"exit\":$rc,\"violation_lines\":$v},"
 done
-git -C /repo checkout -- .
+if [ "${SEED_SCRATCH:-0}" = "1" ]; then rm -rf /tmp/seedrepo; unset VERIF_REPO; else git -C /repo checkout -- .; fi
 rm -rf /verif/build/seedscratch
 python3 - <<PY
 import json
 meta = {"name": "$NAME", "breaks_property": "$P", "worktree_confirmation": {"demo_exit_with_change": $RC_WITH, "demo_exit_without_change": $RC_WITHOUT, "suite_with_change": "$SUITE"},
         "checks_run": json.loads("[" + """$RESULTS""".rstrip(",") + "]"),
-        "needs_to_manifest": "see meta.txt (written by the sub-agent)"}
+        "needs_to_manifest": "see meta.txt (written by the sub-agent)", "checks_ran_against": "${SEED_SCRATCH:-0}" == "1" and "scratch copy of the committed /repo/src with the change applied" or "/repo with the change applied (undone afterwards)"}
 json.dump(meta, open("$D/meta.json", "w"), indent=1)
 PY
 git -C /repo status --short | grep -v _build | head -3
